@@ -180,13 +180,14 @@ def add_columns(fw: str, data: Any, new: Dict[str, List[int]]) -> Any:
                 data = data.append_column(c, pa.array(v[: data.num_rows] + [0] * max(0, data.num_rows - len(v))))
         return data
     if fw == "pandas":
-        data = data.copy()
+        if not CUR.get("inplace"):
+            data = data.copy()
         for c, v in new.items():
             data[c] = (v + [0] * len(data))[: len(data)]
         return data
     out = []
     for i, row in enumerate(data):
-        r = dict(row)
+        r = row if CUR.get("inplace") else dict(row)
         for c, v in new.items():
             r[c] = v[i] if i < len(v) else 0
         out.append(r)
@@ -207,7 +208,14 @@ def build_universe(U: dict, fw: str, tag: str) -> Dict[int, type]:
         d: Dict[str, Any] = {"compute_framework_rule": classmethod(lambda cls, _f=fwc: {_f})}
         if g["kind"] == "root":
             d["input_data"] = classmethod(lambda cls, _c=tuple(g["creator"]): DataCreator(set(_c)))
-            d["calculate_feature"] = classmethod(lambda cls, data, features, _c=tuple(g["cols"]): make_native(fw, list(_c)))
+            def root_calc(cls: Any, data: Any, features: Any, _c: Any = tuple(g["cols"])) -> Any:
+                # in-place cases: a NARROW root that produces exactly the columns of the features it is asked for (the object's
+                # table then consists of requested columns only until a later step adds to it); otherwise all its columns
+                if CUR.get("inplace"):
+                    want = {str(n).split("~")[0] for n in features.get_all_names()}
+                    return make_native(fw, [c for c in _c if c.split("~")[0] in want])
+                return make_native(fw, list(_c))
+            d["calculate_feature"] = classmethod(root_calc)
         else:
             def input_features(self: Any, options: Any, feature_name: Any, _i: Any = tuple(g["inputs"]), _g: int = gid) -> Any:
                 s = {Feature(n) for n in _i}
@@ -297,6 +305,10 @@ def run_case(U: dict, C: dict, req: List[str], ordering: Optional[str], mode: st
     _GID.clear()
     _GID.update({c: g for g, c in classes.items()})
     CUR["fw"] = fw
+    # half of the cases (decided by the case itself) compute IN PLACE on pandas frames / python-dict rows, like the built-in groups:
+    # a result table that aliases the object's data would then show columns computed later
+    import zlib
+    CUR["inplace"] = bool(zlib.crc32(json.dumps([req, ordering, mode]).encode()) & 1)
     install()
     links = None
     if C.get("links") is not None:
@@ -308,7 +320,7 @@ def run_case(U: dict, C: dict, req: List[str], ordering: Optional[str], mode: st
         for name in C["filters"]:
             gf.add_filter(name, "min", {"value": -1000})
     REC.reset()
-    out: Dict[str, Any] = {"req": req, "ordering": ordering, "mode": mode}
+    out: Dict[str, Any] = {"req": req, "ordering": ordering, "mode": mode, "inplace": CUR["inplace"]}
     kw: Dict[str, Any] = {}
     sink = None
     if mode != "SYNC":
